@@ -118,6 +118,7 @@ pub struct Sys {
     /// a connected outgoing table entry at the previous quiescent point)
     votes: Vec<(Duration, Id, SocketAddr, bool)>,
     enr_prev: Option<Enr>,
+    pongs_taken: HashSet<(usize, Vec<u8>)>,
     pub vote_min: usize,
     pub vote_duration: Duration,
     pub address_updates: u64,
@@ -151,6 +152,7 @@ impl Sys {
             exempt_seen: 0,
             votes: Vec::new(),
             enr_prev: None,
+            pongs_taken: HashSet::new(),
             vote_min: 10,
             vote_duration: Duration::from_secs(300),
             address_updates: 0,
@@ -426,8 +428,16 @@ impl Sys {
 
         // ---- C17: votes and address changes ----
         if let Some(inj) = self.w.last_injected.clone() {
-            if let (Some(i), Some(RefMessage::Pong { ip, port, .. })) = (inj.node, inj.tag.msg.clone()) {
-                let addr = match ip.len() {
+            if let (Some(i), Some(RefMessage::Pong { id: pong_id, ip, port, .. })) = (inj.node, inj.tag.msg.clone()) {
+                // the PONG is a vote only if its PING is still waiting for it: a transmission of
+                // that PING left at most one request timeout ago and no PONG was taken for it yet
+                let waiting = self.w.trace.iter().rev().take_while(|(t, _)| *t + self.w.request_timeout + Duration::from_millis(600) >= now).any(|(t, e)| {
+                    *t + self.w.request_timeout >= now && matches!(e, WEv::Sent { node: Some(n), msg: Some(RefMessage::Ping { id, .. }), .. } if *n == i && *id == pong_id)
+                }) && self.pongs_taken.insert((i, pong_id.clone()));
+                let addr = if !waiting {
+                    None
+                } else {
+                    match ip.len() {
                     4 => Some(SocketAddr::new(std::net::IpAddr::V4(std::net::Ipv4Addr::new(ip[0], ip[1], ip[2], ip[3])), port)),
                     16 => {
                         let mut b = [0u8; 16];
@@ -435,6 +445,7 @@ impl Sys {
                         Some(SocketAddr::new(std::net::IpAddr::V6(std::net::Ipv6Addr::from(b)), port))
                     }
                     _ => None,
+                    }
                 };
                 if let Some(addr) = addr {
                     let nid = self.w.id(i);
@@ -462,7 +473,7 @@ impl Sys {
                         }
                         let alive = |t: &Duration| *t + self.vote_duration > now;
                         let support = latest.values().filter(|(t, x)| *x == a && alive(t)).count();
-                        let log: Vec<String> = self.votes.iter().rev().take(12).map(|(t, v, x, e)| format!("{:?} {} votes {x} eligible={e}", t, hx(&v[..4]))).collect();
+                        let log: Vec<String> = self.votes.iter().rev().take(40).map(|(t, v, x, e)| format!("{:?} {} votes {x} eligible={e}", t, hx(&v[..4]))).collect();
                         if support < self.vote_min {
                             self.flag(rep, Focus::C17, "C17:update-below-minimum", format!("the address changed to {a} backed by {support} current votes of eligible peers, the minimum is {}", self.vote_min), json!({"votes": log}));
                         }
@@ -1476,7 +1487,10 @@ pub fn votes(seed: u64, rep: &mut Report) {
     rt.block_on(async {
         let mut rng = Rng::new(seed ^ 0x0717);
         let min = 2 + rng.usize(5);
-        let vote_duration = Duration::from_secs(*rng.pick(&[20u64, 300]));
+        // Votes are stamped with the wall clock (std::time::Instant), which the paused runtime does
+        // not control: expiry cannot be exercised in virtual time (the service rig of C17 does it
+        // in real time). The whole scenario stays well inside one vote duration of either clock.
+        let vote_duration = Duration::from_secs(300);
         let ping = *rng.pick(&[5u64, 9]);
         let cfg = WorldCfg {
             stack: Stack3::V4,
